@@ -220,6 +220,17 @@ pub fn replay_crates(files: &[(String, String, String)], schedule: &[String], la
 
 /// As `replay`; with `same_crate` all files of a multi-file run belong to one crate (one output file, one fold bucket).
 pub fn replay_layout(files: &[(String, String)], schedule: &[String], lang: Lang, multi: bool, same_crate: bool, threads: usize, extra_env: &[(&str, String)]) -> Replay {
+    replay_layout_roots(files, schedule, lang, multi, same_crate, threads, extra_env, false)
+}
+
+/// As `replay` without a forced schedule, the files found by walking the one directory they lie in (what the walker is
+/// configured to leave out applies to them, unlike to files named as roots).
+pub fn replay_below_a_directory(files: &[(String, String)], lang: Lang, multi: bool, threads: usize) -> Replay {
+    replay_layout_roots(files, &[], lang, multi, false, threads, &[], true)
+}
+
+#[allow(clippy::too_many_arguments)]
+fn replay_layout_roots(files: &[(String, String)], schedule: &[String], lang: Lang, multi: bool, same_crate: bool, threads: usize, extra_env: &[(&str, String)], directory_root: bool) -> Replay {
     let sc = Scratch::new("e3");
     let mut args = cli::lang_args(lang);
     let out = if multi { sc.path("out") } else { sc.path(&format!("out/types.{}", lang.ext())) };
@@ -233,7 +244,12 @@ pub fn replay_layout(files: &[(String, String)], schedule: &[String], lang: Lang
             _ => format!("ws/{stem}.rs"),
         };
         let p = sc.write(&rel, src.as_bytes());
-        args.push(p.to_string_lossy().into_owned());
+        if !directory_root {
+            args.push(p.to_string_lossy().into_owned());
+        }
+    }
+    if directory_root {
+        args.push(sc.path("ws").to_string_lossy().into_owned());
     }
     // the order of the actual enqueue operations is fixed by waiting for `sent:<f>` before the next event
     // `send-unconfirmed:<f>` releases the walker without waiting for its send to return (it may block on a full channel)
